@@ -397,7 +397,9 @@ def build_case(w, prog, log, clock, scratch, sink_factory, hints=()):
         if late:
             upcall()
         if term == 'ret':
-            return
+            # realisation hint ['retval', sid, k]: the stage returns a value instead of None - nothing may depend on it
+            rv = next((h[2] for h in hints if isinstance(h, list) and h[0] == 'retval' and h[1] == sid), 0)
+            return [None, EqualToEverything(), NoTruthEq(), 0, '', False, [], ()][rv]
         k = term[0]
         if k == 'raise1':
             if ['api', sid] in hints and term[1][0] in ('skip', 'failure'):
@@ -441,13 +443,13 @@ def build_case(w, prog, log, clock, scratch, sink_factory, hints=()):
 
     class T(tt.TestCase):
         def setUp(self):
-            run_stage(self, su, super().setUp)
+            return run_stage(self, su, super().setUp)
 
         def tearDown(self):
-            run_stage(self, td, super().tearDown)
+            return run_stage(self, td, super().tearDown)
 
         def test(self):
-            run_stage(self, bo)
+            return run_stage(self, bo)
 
         def defaultTestResult(self):
             return sink_factory()
@@ -485,6 +487,29 @@ def build_case(w, prog, log, clock, scratch, sink_factory, hints=()):
     for h in range(n_on_exc):
         case.addOnException(lambda exc_info, _h=h: log.append(['onExc', _h, w.canon_exc(exc_info[1])]))
     return case
+
+
+class EqualToEverything:
+    """a value whose == answers True to everything (unittest.mock.ANY style)"""
+    def __eq__(self, other):
+        return True
+
+    def __ne__(self, other):
+        return False
+
+    __hash__ = object.__hash__
+
+
+class NoTruthEq:
+    """a value whose == gives something without a truth value (array style)"""
+    def __eq__(self, other):
+        class Ambiguous:
+            def __bool__(self):
+                raise ValueError('the truth value of a comparison with this object is ambiguous')
+        return Ambiguous()
+
+    __ne__ = __eq__
+    __hash__ = object.__hash__
 
 
 class Scratch:
@@ -793,6 +818,9 @@ def gen_input(rng, focus='all'):
         hints.append(['runner', rng.randrange(1, 4)])
     if any(a[0] == 'patch' for st in all_stages(prog) for a in st[2]) and rng.random() < 0.6:
         hints.append(['scratch', rng.randrange(1, 5)])
+    for st in all_stages(prog):
+        if st[3] == 'ret' and rng.random() < 0.12:
+            hints.append(['retval', st[1], rng.randrange(1, 8)])
     if rng.random() < 0.25:
         # one reason in the program is the empty string: a skip raised by a stage, the skip decorator's, or expectFailure's
         tags = [st[3][1][1] for st in all_stages(prog) if isinstance(st[3], list) and st[3][0] == 'raise1' and st[3][1][0] == 'skip']
@@ -842,7 +870,7 @@ def exc_kinds(prog):
 
 def features(inp, traces):
     prog, runs = inp[0], inp[1]
-    f = ['flavour=' + prog[-1], 'runs=%d' % runs] + (['hint:fixture-getDetails-raises'] if len(inp) > 2 and any(isinstance(h, int) for h in inp[2]) else []) + ['hint:skip-decorator-%d' % h[1] for h in (inp[2] if len(inp) > 2 else []) if isinstance(h, list) and h[0] == 'skip'] + ['hint:%s' % h[0] for h in (inp[2] if len(inp) > 2 else []) if isinstance(h, list) and h[0] in ('late-upcall', 'runner', 'empty-reason')] + ['hint:scratch-%d' % h[1] for h in (inp[2] if len(inp) > 2 else []) if isinstance(h, list) and h[0] == 'scratch'] + ['hint:helper-raises' for h in (inp[2] if len(inp) > 2 else []) if isinstance(h, list) and h[0] == 'api'][:1]
+    f = ['flavour=' + prog[-1], 'runs=%d' % runs] + (['hint:fixture-getDetails-raises'] if len(inp) > 2 and any(isinstance(h, int) for h in inp[2]) else []) + ['hint:skip-decorator-%d' % h[1] for h in (inp[2] if len(inp) > 2 else []) if isinstance(h, list) and h[0] == 'skip'] + ['hint:%s' % h[0] for h in (inp[2] if len(inp) > 2 else []) if isinstance(h, list) and h[0] in ('late-upcall', 'runner', 'empty-reason')] + ['hint:retval-%d' % h[2] for h in (inp[2] if len(inp) > 2 else []) if isinstance(h, list) and h[0] == 'retval'] + ['hint:scratch-%d' % h[1] for h in (inp[2] if len(inp) > 2 else []) if isinstance(h, list) and h[0] == 'scratch'] + ['hint:helper-raises' for h in (inp[2] if len(inp) > 2 else []) if isinstance(h, list) and h[0] == 'api'][:1]
     sts = list(all_stages(prog))
     faulty = [s for s in sts if s[3] != 'ret']
     f.append('stages=%s' % (len(sts) if len(sts) < 8 else '8+'))
